@@ -8,7 +8,7 @@ var HostileStrings = []string{
 	"", " ", "x", "it's", "''", "'", "a'b'c", `\`, `\\`, `a\`, `\'`, `\'; --`, ";", "; DROP TABLE t; --", "--", "-- x", "/*", "*/", "/* c */",
 	"$$", "$1", "$tag$x$tag$", "?", "??", "%", "_", "%_", "a%b", "a_b", "\x00", "a\x00b", "\xff", "a\xffb", "\xc3", "\xc3\x28", "\xed\xa0\x80",
 	"\n", "a\nb", "\r\n", "\t", "a\tb", "NaN", "nan", "Inf", "-inf", "infinity", "+Inf", "1e999", "-1e999", "0x1p-2", "1_0", "1e5", "1E5", ".5", "5.", "-0", "+5",
-	"9223372036854775807", "-9223372036854775808", "9223372036854775808", "18446744073709551616", "18446744073709551620", "-18446744073709551620", "20000000000000000000", "36893488147419103232", "123456789012345678901", "007", "1.50", "1e-7", "0.1", "-0.001",
+	"9223372036854775807", "-9223372036854775808", "9223372036854775808", "18446744073709551616", "18446744073709551620", "-18446744073709551620", "20000000000000000000", "36893488147419103232", "123456789012345678901", "007", "010", "017", "0123", "-010", "0x10", "0b11", "0o17", "1_000", "1.50", "1e-7", "0.1", "-0.001",
 	"AND", "and", "And", "OR", "or", "NOT", "not", "TO", "to", "tO", "NULL", "null", "TRUE", "false", "select", "SELECT 1", "a OR 1=1", "1=1", "') OR ('1'='1",
 	"\ufffd", "x\ufffdy", "\ufffd*", `b*\\\`, `a?\\\\\`, `*\`, `w*\\`, `x\`, `a\\\`, "-٣", "١٢", "-１", "٣.٥", "-\U0001d7cf", "a-٣", "ünï", "日本語", "üñí çødé", "e\u0301", "\u202eabc", "😀", "a😀b", "\u00a0", "\u2028", "٣", "Ⅷ", "ß", "İ",
 	"(", ")", "()", "[", "]", "{", "}", "[a TO b]", ":", "a:b", "=", ">", "<", "<=", ">=", "+", "-", "+a", "-a", "~", "^", "~2", "^2", "a~2", "*", "a*", "*a", "a?b", "/", "//", "/x/", "/a b/", "a/b",
@@ -33,7 +33,7 @@ var FuzzDict = append(append([]string{}, Sigma...),
 	" ", "  ", "\t", "\n", "\r", "\\", "\\\\", "\\ ", "\\:", "\\(", "\\*", "\\\"", "\"", "'", "\"\"", "''", "/", "//", "/a\\/b/", "/a\\\\/", "\\\\/", "\\/",
 	"a:b", "a:5", "a:[1 TO 5]", "a:{* TO 5}", "a:[b TO *]", "a:(x OR y)", "a:>5", "a:>=5", "a:<5", "a:<=-5", "a:b*", "a:/r.*/", "a~", "a~2", "a^", "a^1.5",
 	"NOT ", " AND ", " OR ", " TO ", "to", "and", "or", "not", "+", "-", "--", "-5", "- 5", "1e5", "NaN", "Inf", ".", "..", "-.", "5.", "0x10", "é", "日", "\xff", "\x00", "\xc3",
-	"\ufffd", `*\\\`, `?\`, `\\\`, "٣", "-٣", "１", "-１", "18446744073709551616", "18446744073709551620", "-9223372036854775808", "20000000000000000000", "36893488147419103232", "((", "))", "()", "[]", "{}", "[*", "*]", "TO *", ":(", "):", ":[", ":{", "=:", ":=", ":>", ":<", ">=", "<=", "~~", "^^", "~^", "^~", "~-1", "^-1", "^0", "~0",
+	"010", "017", "0x1F", "1_000", "\ufffd", `*\\\`, `?\`, `\\\`, "٣", "-٣", "１", "-１", "18446744073709551616", "18446744073709551620", "-9223372036854775808", "20000000000000000000", "36893488147419103232", "((", "))", "()", "[]", "{}", "[*", "*]", "TO *", ":(", "):", ":[", ":{", "=:", ":=", ":>", ":<", ">=", "<=", "~~", "^^", "~^", "^~", "~-1", "^-1", "^0", "~0",
 )
 
 // RepoSeeds are the inputs the repository's own tests and fuzz targets use.
